@@ -113,7 +113,10 @@ class World(object):
             limit = min(tops)
             if limit > 0:
                 var = order[vi % limit]
-                node = BDDNode(var, a[0].root, b[0].root)
+                # an equal but (where CPython allows) not identical str object, as a caller who
+                # computes variable names at run time would pass
+                label = (var + '#')[:-1] if vi % 2 else var
+                node = BDDNode(label, a[0].root, b[0].root)
                 o = OBDD(node, list(order), check_ordering=False) if unchecked else OBDD(node, list(order))
                 vt = bdd.tt_var(self.vars.index(var), self.nv)
                 self._add(o, a[1], (vt & b[2]) | (self.full & ~vt & a[2]))
